@@ -241,7 +241,7 @@ def exhaustive_heads(tier):
     for w in words(ALPHA, 3 if quick else 5):
         out.append(head_case(w, "exh-raw"))
     # after a valid method: method end, path, version, line end
-    for w in words(ALPHA, 3 if quick else 4):
+    for w in words(ALPHA, 3 if quick else 5):
         out.append(head_case(b"GET" + w + b"\r\n\r\n", "exh-start"))
     for w in words(ALPHA, 2 if quick else 4):
         out.append(head_case(b"GET /" + w + b" HTTP/1.1\r\nHost: h\r\n\r\n", "exh-target"))
@@ -440,6 +440,13 @@ def extra_oracle(c, i):
 
 
 def out_of_domain(c, i):
+    if c.comp == "stream.window" and c.x[1][1][1]:
+        # whether file.seek(start) succeeds for 2^31 <= start < 2^63 is the file system's business (s_maxbytes);
+        # beyond i64::MAX it always fails, below 2^31 it always succeeds: only those are compared
+        import re
+        m = re.match(rb"bytes=\+?(\d+)-", c.x[1][1][1][0][1])
+        if m and 2 ** 31 <= int(m.group(1)) < 2 ** 63:
+            return True
     return i.startswith("(L (N 96)") or bool(c.meta.get("ood"))
 
 
@@ -513,7 +520,7 @@ def directed(rng, mismatches):
 RULE = ("No PANIC outcome anywhere (oracle independent of the models), and the models predict the implementation's outcome exactly "
         "(correspondence; a panic must be predicted in both directions). Components: h1.request / h1.headers (kvarn_async::read::request over a "
         "scripted reader, parse::headers; both arithmetic profiles): bounded-exhaustive over the structural alphabet {G E T SP / : CR LF a 0 - = , ; %} "
-        "(raw heads up to length 3 quick / 5 thorough; after 'GET'; in the target position; header blocks over {a : SP CR LF 0 - ; % NUL 0xff TAB}), "
+        "(raw heads up to length 3 quick / 5 thorough; 'GET' + up to 3 / 5 symbols + blank line; up to 2 / 4 symbols in the target position; header blocks over {a : SP CR LF 0 - ; % NUL 0xff TAB} up to length 3 / 5, directly and behind a request line), "
         "a list of special heads (bare LF, NUL, non-ASCII, empty parts, over-long tokens, TLS/h2 prefaces), mutated valid heads with random read "
         "schedules and end modes, heads up to and across the 16 KiB limit; range.serve (Range values: extreme numbers 0..10^40 around 2^32, 2^63, 2^64, "
         "words over the value alphabet, mutations; both profiles) and stream.window (the same window in stream_body, over loopback); "
@@ -534,7 +541,8 @@ ASSUMPTIONS = [
     "Accept-Encoding class (as in C09); Prepare/Present/Package/Post extensions other than the modelled ones, TLS, HTTP/2, HTTP/3, WebSockets, "
     "the compressors and the crates http/h2/rustls/moka/time/tokio are outside the theorems (exploration only)",
     "bodies fit in memory (length < 2^64), the hypothesis of range_never_panics (page_fits)",
-    "BytesMut::reserve grows to at least len + additional (the only fact about the allocator the reader theorem uses)",
+    "stream.window: whether seeking a file to an offset in [2^31, 2^63) succeeds depends on the file system; those starts are out of domain "
+    "(the model's seek fails exactly beyond i64::MAX)",
 ]
 TRUSTED = ["modelled here (Model/Panics.v): utils/src/parse.rs query, Query::{insert,index_of,iterate_to_first,iterate_to_last}, QueryPairIter "
            "(repaired code, commit 14150b4), src/comprash.rs PathQuery, src/extensions.rs stream_body (window arithmetic)",
